@@ -2,6 +2,9 @@ import Genshi.Wire
 import Genshi.WireCore
 import Genshi.Model.OutputPipeline
 import Genshi.Model.OutputMarkupAttr
+import Genshi.Model.OutputFlattenCache
+import Genshi.Model.OutputFlatPipeline
+import Genshi.Model.OutputPipelineFull
 namespace Driver.C09
 open Genshi Genshi.Output Genshi.Sexp
 
@@ -48,7 +51,59 @@ def tev? : Sexp → Option TEv
       pure (.tag ie t a)
   | x => (Event.ofSexp? x).map fun e => .ev (locEv e)
 
+/-! ### the flattener with its cache on the full namespace model (`Model/OutputFlattenCache.lean`) -/
+
+/-- `( TAG empty qname ( ( qname value markup ) … ) )` or a wire event -/
+def txev? : Sexp → Option Xml.TXEv
+  | .list [.atom "TAG", ie, t, .list as] => do
+      let ie ← ie.toBool?
+      let t ← QName.ofSexp? t
+      let a ← as.mapM fun
+        | .list [n, .str v, f] => do let n ← QName.ofSexp? n; let f ← f.toBool?; pure (n, (v, f))
+        | _ => none
+      pure (.tag ie t a)
+  | x => (Event.ofSexp? x).map .ev
+
+def tfev : Xml.TFEv → Sexp
+  | .tag ie n a => .list [.atom "TAG", ofBool ie, .str n,
+      .list (a.map fun p => .list [.str p.1, .str p.2.1, ofBool p.2.2])]
+  | .end_ n => .list [.atom "E", .str n]
+  | .other e => e.toSexp
+
+def cpref? : Sexp → Option (List (Str × Str))
+  | .list xs => xs.mapM fun
+      | .list [.str u, .str p] => some (u, p)
+      | _ => none
+  | _ => none
+
+/-- how often the cached run serves a start tag from the cache (`chit` answers) and how many entries it
+    stores: measures that the generated streams reach the branches the theorem is about -/
+def cstats (pref : List (Str × Str)) : Xml.CSt → List Xml.TXEv → Nat × Nat → Nat × Nat
+  | _, [], acc => acc
+  | c, e :: es, (hits, stores) =>
+      let r := Xml.cstep pref true c e
+      let hit := match e with
+        | .tag ie t a => (Xml.chit true c ie t a).isSome
+        | .ev (.start t a) => (Xml.chit true c false t (Xml.typedOf a)).isSome
+        | _ => false
+      let stored := r.1.cache.length > c.cache.length
+      cstats pref r.1 es (if hit then hits + 1 else hits, if stored then stores + 1 else stores)
+
 def handle : List Sexp → Option Sexp
+  -- cflat <cache> <pref> ( item … ): NamespaceFlattener(prefixes, cache) on typed events
+  | [.atom "cflat", cache, p, .list items] => do
+      let cache ← cache.toBool?
+      let p ← cpref? p
+      let evs ← items.mapM txev?
+      let (hits, stores) := cstats p { st := Xml.FSt.init } evs (0, 0)
+      pure (.list [.list ((Xml.cflatten p cache evs).map tfev), ofNat hits, ofNat stores])
+  -- flatser <method> <cache> <drop_xml_decl> <pref> ( item … ): flattener + main loop, same cache flag
+  | [.atom "flatser", m, cache, dropd, p, .list items] => do
+      let m ← method? m
+      let cache ← cache.toBool?; let dropd ← dropd.toBool?
+      let p ← cpref? p
+      let evs ← items.mapM txev?
+      pure (.list [.atom "ok", .str (serT m ⟨dropd⟩ p cache evs)])
   -- loopm <method> <cache> <drop_xml_decl> ( item … ): the repaired main loop on typed events
   | [.atom "loopm", m, cache, dropd, .list items] => do
       let m ← method? m
@@ -69,6 +124,18 @@ def handle : List Sexp → Option Sexp
         match render m cfg s with
         | some out => pure (.list [.atom "ok", .str out])
         | none => pure (.atom "unmodelled")
+  -- renderfull <method> <strip> <cache> <drop_xml_decl> <doctype> <stream>: the whole serializer with the full
+  -- NamespaceFlattener (never `unmodelled` for namespace reasons)
+  | [.atom "renderfull", m, strip, cache, dropd, dt, s] => do
+      let m ← method? m
+      let strip ← strip.toBool?; let cache ← cache.toBool?; let dropd ← dropd.toBool?
+      let s ← streamOfSexp? s
+      match doctype? dt with
+      | none => pure (.atom "unmodelled")
+      | some dt =>
+        let cfg : Cfg := { strip := strip, cache := cache, doctype := dt, dropXmlDecl := dropd }
+        if !((filteredFull m cfg s).all feOk) then pure (.atom "unmodelled") else
+        pure (.list [.atom "ok", .str (renderFull m cfg s)])
   -- spec <method> <drop_xml_decl> <stream>: serSpec over the filtered stream (strip off, no doctype)
   | [.atom "spec", m, dropd, s] => do
       let m ← method? m
